@@ -1,7 +1,26 @@
 """C06 table: every `COO(...)` / `GCXS(...)` construction site that makes a promise to the constructor
-(`sorted=` other than False, `has_duplicates=` other than True), per (file, function), with the
-promise expressions as written.  A new or changed site changes the table the Lean theorem
-`promise_sites_covered` is checked against."""
+(`sorted=` other than False, `has_duplicates=` other than True, or a ready-made (data, indices, indptr) triple), per (file, function),
+with the promise expressions in a CANONICAL spelling.  A new or changed site changes the table the Lean theorem
+`promise_sites_covered` is checked against.
+
+What is pinned is the promise, not the way the call is written.  The following do not change a row:
+
+* the order of the keywords of the call, the order of the functions in the file (rows are a sorted set);
+* a promise passed through a local: a name bound EXACTLY ONCE in the function by a plain `name = <expression>` is replaced by that
+  expression when the expression is a literal, or when the binding is one of the statements IMMEDIATELY BEFORE the statement that
+  contains the call (only other such bindings in between: nothing can run between the binding and the call) and the expression
+  contains no call (names, attribute reads, comparisons, `not` / `and` / `or`, literals): `flag = axis == 0` … `sorted=flag` is
+  `sorted=axis == 0`;
+* the NAME of a local whose value is computed some other way (bound more than once, bound by a loop / unpacking, bound from a call):
+  the row says `<local>` — neither the old table nor this one says anything about HOW such a flag is computed (that is what the
+  correspondence legs of C01 / C02 check); a literal or an expression over parameters written in its place is a different row;
+* `c == <literal>` written `<literal> == c`;
+* the triple of a GCXS site passed through a local (a local name as first argument of `GCXS(...)` is a triple-producing helper's
+  result or a tuple bound before: both are rows `triple`; a PARAMETER handed on is not a site of its own);
+* `COO` / `GCXS` imported under another name (`from .core import COO as C`).
+
+It REFUSES a construction site that unpacks `**kwargs` (unless that is a local bound once to a dict display with literal keys):
+the promise could not be read."""
 from __future__ import annotations
 
 import ast
@@ -9,14 +28,172 @@ from pathlib import Path
 
 FILES = ["_coo/core.py", "_coo/common.py", "_coo/indexing.py", "_umath.py", "_common.py", "_dok.py", "_io.py", "_utils.py",
          "_compressed/compressed.py", "_compressed/common.py", "_compressed/indexing.py", "_sparse_array.py"]
+LOCAL = "<local>"
+FUNC = ast.FunctionDef | ast.AsyncFunctionDef | ast.Lambda
 
 
 def lean_str(s):
     return '"' + s.replace("\\", "\\\\").replace('"', '\\"') + '"'
 
 
+class Scope:
+    """bindings of the names of one function body (nested functions / classes / comprehensions are scopes of their own)"""
+
+    def __init__(self, fn):
+        self.fn = fn
+        self.params = set()
+        if fn is not None and not isinstance(fn, ast.Module):
+            a = fn.args
+            self.params = {p.arg for p in a.posonlyargs + a.args + a.kwonlyargs} | ({a.vararg.arg} if a.vararg else set()) | ({a.kwarg.arg} if a.kwarg else set())
+        self.simple = {}    # name -> [Assign statements `name = expr`]
+        self.other = set()  # names bound any other way (loop target, unpacking, augmented assignment, with/except/import, walrus, global)
+        self.prev = {}      # id(statement) -> the statement before it in its block (None for the first)
+        self.holder = {}    # id(node) -> the statement (of a block of this scope) that contains it
+        if fn is None:
+            return
+        body = fn.body if isinstance(fn.body, list) else [ast.Expr(fn.body)]
+        self._block(body)
+
+    def _block(self, stmts):
+        prev = None
+        for st in stmts:
+            self.prev[id(st)] = prev
+            prev = st
+            self._stmt(st)
+
+    def _stmt(self, st):
+        if isinstance(st, ast.FunctionDef | ast.AsyncFunctionDef | ast.ClassDef):
+            self.other.add(st.name)
+            return
+        if isinstance(st, ast.Assign) and len(st.targets) == 1 and isinstance(st.targets[0], ast.Name):
+            self.simple.setdefault(st.targets[0].id, []).append(st)
+            self._expr(st.value, st)
+            return
+        for field, value in ast.iter_fields(st):
+            if field in ("body", "orelse", "finalbody") and isinstance(value, list) and value and isinstance(value[0], ast.stmt):
+                self._block(value)
+            elif field == "handlers":
+                for h in value:
+                    if h.name:
+                        self.other.add(h.name)
+                    self._block(h.body)
+            elif field == "cases":
+                for c in value:
+                    for n in ast.walk(c.pattern):
+                        for nm in (getattr(n, "name", None), getattr(n, "rest", None)):
+                            if isinstance(nm, str):
+                                self.other.add(nm)
+                    self._block(c.body)
+            elif isinstance(value, ast.AST):
+                self._expr(value, st)
+            elif isinstance(value, list):
+                for v in value:
+                    if isinstance(v, ast.AST):
+                        self._expr(v, st)
+        if isinstance(st, ast.Import | ast.ImportFrom):
+            for a in st.names:
+                self.other.add((a.asname or a.name).split(".")[0])
+        if isinstance(st, ast.Global | ast.Nonlocal):
+            self.other.update(st.names)
+
+    def _expr(self, e, st):
+        """binding occurrences inside an expression / a target of statement `st`; does not enter nested scopes"""
+        todo = [e]
+        while todo:
+            n = todo.pop()
+            self.holder[id(n)] = st
+            if isinstance(n, ast.Name) and isinstance(n.ctx, ast.Store | ast.Del):
+                self.other.add(n.id)
+            if isinstance(n, ast.NamedExpr) and isinstance(n.target, ast.Name):
+                self.other.add(n.target.id)
+            if isinstance(n, FUNC | ast.ListComp | ast.SetComp | ast.DictComp | ast.GeneratorExp):
+                # a scope of its own — but its call sites belong to this statement
+                for sub in ast.walk(n):
+                    self.holder.setdefault(id(sub), st)
+                continue
+            todo.extend(ast.iter_child_nodes(n))
+
+    def is_local(self, name):
+        return name in self.simple or name in self.other
+
+    def single(self, name):
+        """the one `name = expr` statement that binds `name` in this function, if that is its only binding"""
+        if name in self.other or name in self.params or len(self.simple.get(name, [])) != 1:
+            return None
+        return self.simple[name][0]
+
+
+CALL_FREE = (ast.Name, ast.Attribute, ast.Constant, ast.Compare, ast.BoolOp, ast.UnaryOp, ast.Tuple, ast.List, ast.Subscript, ast.Slice, ast.BinOp,
+             ast.expr_context, ast.cmpop, ast.boolop, ast.unaryop, ast.operator)
+
+
+def call_free(e):
+    return all(isinstance(n, CALL_FREE) for n in ast.walk(e))
+
+
+def adjacent_before(scope, binding, site_stmt):
+    """is `binding` one of the single-use temporaries bound immediately before `site_stmt` (only other plain `name = <call-free
+    expression or literal>` statements in between)?"""
+    st = scope.prev.get(id(site_stmt))
+    while st is not None:
+        if st is binding:
+            return True
+        if not (isinstance(st, ast.Assign) and len(st.targets) == 1 and isinstance(st.targets[0], ast.Name) and call_free(st.value)):
+            return False
+        st = scope.prev.get(id(st))
+    return False
+
+
+def resolve(scope, e, site_stmt, depth=0):
+    """the promise expression with the resolvable locals replaced by what they were bound to (a copy)"""
+    if depth > 8:
+        return e
+
+    class R(ast.NodeTransformer):
+        def visit_Name(self, n):
+            if not isinstance(n.ctx, ast.Load):
+                return n
+            b = scope.single(n.id)
+            if b is not None:
+                if isinstance(b.value, ast.Constant):
+                    return b.value
+                if site_stmt is not None and call_free(b.value) and adjacent_before(scope, b, site_stmt):
+                    return resolve(scope, b.value, b, depth + 1)
+            return n
+
+        def visit_Lambda(self, n):
+            return n
+
+        def visit_GeneratorExp(self, n):
+            return n
+        visit_ListComp = visit_SetComp = visit_DictComp = visit_GeneratorExp
+
+    import copy
+    return R().visit(copy.deepcopy(e))
+
+
+def promise_text(scope, e, site_stmt):
+    """canonical text of a promise: resolvable temporaries replaced; a promise that is nothing but the name of a local of the function
+    (one that could not be resolved: computed by several statements, a loop, a call) reads `<local>` whatever the local is called"""
+    r = resolve(scope, e, site_stmt)
+    if isinstance(r, ast.Name) and scope.is_local(r.id) and r.id not in scope.params:   # a parameter keeps its name (parameters are API)
+        return LOCAL
+    return canon(r)
+
+
+def canon(e):
+    """canonical text: a literal operand of `==` / `!=` on the right"""
+    class C(ast.NodeTransformer):
+        def visit_Compare(self, n):
+            self.generic_visit(n)
+            if len(n.ops) == 1 and isinstance(n.ops[0], ast.Eq | ast.NotEq) and isinstance(n.left, ast.Constant) and not isinstance(n.comparators[0], ast.Constant):
+                n.left, n.comparators = n.comparators[0], [n.left]
+            return n
+    return ast.unparse(C().visit(e))
+
+
 def generate(repo: Path):
-    base = repo / "sparse" / "numba_backend"
+    base = Path(repo) / "sparse" / "numba_backend"
     rows, refusals = [], []
     for rel in FILES:
         p = base / rel
@@ -25,30 +202,59 @@ def generate(repo: Path):
         except Exception as e:  # noqa: BLE001
             refusals.append(f"table promiseSites: cannot parse {rel}: {e}")
             continue
-        # map every node to its enclosing function (qualified by class)
-        def visit(node, qual):
+        # names under which the two constructors are known in this file (`from .core import COO as C`)
+        ctor = {"COO": "COO", "cls": "COO", "GCXS": "GCXS"}
+        for n in ast.walk(tree):
+            if isinstance(n, ast.ImportFrom):
+                for a in n.names:
+                    if a.name in ("COO", "GCXS") and a.asname:
+                        ctor[a.asname] = a.name
+
+        def visit(node, qual, scope):
             for child in ast.iter_child_nodes(node):
-                q = qual
+                q, sc = qual, scope
                 if isinstance(child, ast.FunctionDef | ast.AsyncFunctionDef | ast.ClassDef):
                     q = f"{qual}.{child.name}" if qual else child.name
+                if isinstance(child, ast.FunctionDef | ast.AsyncFunctionDef):
+                    sc = Scope(child)
                 if isinstance(child, ast.Call):
                     fn = child.func
                     name = fn.id if isinstance(fn, ast.Name) else (fn.attr if isinstance(fn, ast.Attribute) else None)
-                    if name in ("COO", "cls") or (name == "GCXS"):
-                        kws = {k.arg: ast.unparse(k.value) for k in child.keywords if k.arg}
-                        s = kws.get("sorted", "False")
-                        d = kws.get("has_duplicates", "True")
-                        if name in ("COO", "cls") and (s != "False" or d != "True"):
-                            rows.append((rel, qual or "<module>", "COO", s, d, kws.get("prune", "False")))
-                        if name == "GCXS" and child.args and isinstance(child.args[0], ast.Tuple | ast.Name) and \
-                                (isinstance(child.args[0], ast.Tuple) or child.args[0].id == "arg"):
-                            # GCXS((data, indices, indptr), ...): the triple is taken as is (never re-validated)
-                            rows.append((rel, qual or "<module>", "GCXS", "triple", "triple", kws.get("prune", "False")))
-                visit(child, q)
-        visit(tree, "")
+                    kind = ctor.get(name)
+                    if kind is not None:
+                        site = scope.holder.get(id(child))
+                        kws = {k.arg: k.value for k in child.keywords if k.arg}
+                        for k in child.keywords:
+                            if k.arg is None:
+                                b = scope.single(k.value.id) if isinstance(k.value, ast.Name) else None
+                                dct = b.value if b is not None else k.value
+                                if isinstance(dct, ast.Dict) and all(isinstance(x, ast.Constant) and isinstance(x.value, str) for x in dct.keys):
+                                    for kk, vv in zip(dct.keys, dct.values, strict=True):
+                                        kws.setdefault(kk.value, vv)
+                                else:
+                                    refusals.append(f"table promiseSites: {rel}:{qual or '<module>'}: construction site `{ast.unparse(child)[:80]}` unpacks "
+                                                    f"`**{ast.unparse(k.value)}`: its promises cannot be read")
+
+                        def text(key, default):
+                            return promise_text(scope, kws[key], site) if key in kws else default
+                        s, d, pr = text("sorted", "False"), text("has_duplicates", "True"), text("prune", "False")
+                        if kind == "COO" and (s != "False" or d != "True"):
+                            rows.append((rel, qual or "<module>", "COO", s, d, pr))
+                        if name != "cls" and kind == "GCXS" and child.args:
+                            a0 = child.args[0]
+                            if isinstance(a0, ast.Name):
+                                b = scope.single(a0.id)
+                                if b is not None and isinstance(b.value, ast.Tuple):
+                                    a0 = b.value
+                            if isinstance(a0, ast.Tuple) or (isinstance(a0, ast.Name) and (a0.id == "arg" or (scope.is_local(a0.id) and a0.id not in scope.params))):
+                                # GCXS((data, indices, indptr), ...): the triple is taken as is (never re-validated)
+                                rows.append((rel, qual or "<module>", "GCXS", "triple", "triple", pr))
+                visit(child, q, sc)
+        visit(tree, "", Scope(None))
     rows = sorted(set(rows))
     body = ",\n  ".join(f"({lean_str(a)}, {lean_str(b)}, {lean_str(c)}, {lean_str(d)}, {lean_str(e)}, {lean_str(f)})" for a, b, c, d, e, f in rows)
     txt = ("/- GENERATED by tools/py2lean.py (tables.d/C06.py) — do not edit. -/\nimport SparseV.Model.Basic\nnamespace SparseV.Gen\n\n"
-           "/-- (file, function, constructor, `sorted=` expression, `has_duplicates=` expression, `prune=` expression) -/\n"
+           "/-- (file, function, constructor, `sorted=` expression, `has_duplicates=` expression, `prune=` expression); a promise that is a\n"
+           "local computed in the function reads `<local>` -/\n"
            f"def promiseSites : List (String × String × String × String × String × String) := [\n  {body}\n]\n\nend SparseV.Gen\n")
     return {"PromiseSites.lean": (txt, ["promiseSites"], refusals)}
